@@ -287,6 +287,7 @@ def run(rep, drv):
 	heavy_tails(rep)
 	outside_support(rep)
 	shifted_families(rep)
+	special_values(rep)
 	call_histories(rep)
 
 
@@ -366,6 +367,62 @@ def shifted_families(rep):
 					rep.diff('continuous families', '%s x=%r: losses %r, the definitions by quadrature give %r' % (nm, x, got, want), case, py=got, model=want, oracle=True, theorem=THEOREM)
 			except Exception as e:
 				rep.diff('continuous families', '%s x=%r raised %s' % (nm, x, err_enum(e)), case, oracle=True, theorem=THEOREM)
+
+
+def special_values(rep):
+	"""Parameter values at which a family degenerates into another one or a formula simplifies (shape 1, rate 1, unit scale, p = 1/2 ...): the closed
+	forms still equal the definitions (quadrature / direct summation)."""
+	from stockpyl import loss_functions as lf
+	from scipy import stats, integrate
+	cont = []
+	for a in (1, 1.0, 2, 0.5):
+		for b in (0.5, 1, 3):
+			cont.append(('gamma_loss(a=%r, b=%r)' % (a, b), lambda x, a=a, b=b: tuple(lf.gamma_loss(x, a, b)) + tuple(lf.gamma_second_loss(x, a, b)), stats.gamma(a, scale=b)))
+	for mu in (1, 1.0, 0.25, 4):
+		cont.append(('exponential_loss(mu=%r)' % mu, lambda x, mu=mu: tuple(lf.exponential_loss(x, mu)) + tuple(lf.exponential_second_loss(x, mu)), stats.expon(scale=1 / mu)))
+	for m, sd in ((0, 1), (0, 2), (5, 1), (1, 1)):
+		cont.append(('normal_loss(mean=%r, sd=%r)' % (m, sd), lambda x, m=m, sd=sd: tuple(lf.normal_loss(x, m, sd)) + tuple(lf.normal_second_loss(x, m, sd)), stats.norm(m, sd)))
+	for mu, sg in ((0, 1), (0, 0.5), (1, 1)):
+		cont.append(('lognormal_loss(mu=%r, sigma=%r)' % (mu, sg), lambda x, mu=mu, sg=sg: tuple(lf.lognormal_loss(x, mu, sg)), stats.lognorm(sg, scale=math.exp(mu))))
+	for a, b in ((0, 1), (0, 2), (1, 2), (-1, 1)):
+		cont.append(('uniform_loss(a=%r, b=%r)' % (a, b), lambda x, a=a, b=b: tuple(lf.uniform_loss(x, a, b)) + tuple(lf.uniform_second_loss(x, a, b)), stats.uniform(a, b - a)))
+	for nm, fn, dist in cont:
+		lo, hi = float(dist.ppf(1e-13)), float(dist.ppf(1 - 1e-13))
+		for q in (0.25, 0.6, 0.9):
+			x = float(dist.ppf(q))
+			case = {'family': 'special-values', 'call': nm, 'x': x}
+			rep.case('continuous families', case); rep.count('family:special-values'); rep.tol_cmp += 1
+			try:
+				with warnings.catch_warnings():
+					warnings.simplefilter('ignore')
+					got = [float(t) for t in fn(x)]
+				want = [integrate.quad(lambda y: (y - x) * dist.pdf(y), x, hi, limit=200)[0], integrate.quad(lambda y: (x - y) * dist.pdf(y), lo, x, limit=200)[0],
+						0.5 * integrate.quad(lambda y: (y - x) ** 2 * dist.pdf(y), x, hi, limit=200)[0], 0.5 * integrate.quad(lambda y: (x - y) ** 2 * dist.pdf(y), lo, x, limit=200)[0]][:len(got)]
+				if not all(close(a_, b_, 1e-6) for a_, b_ in zip(got, want)):
+					rep.diff('continuous families', '%s at x=%r: %r, the definitions by quadrature give %r' % (nm, x, got, want), case, py=got, model=want, oracle=True, theorem=THEOREM)
+			except Exception as e:
+				rep.diff('continuous families', '%s at x=%r raised %s' % (nm, x, err_enum(e)), case, oracle=True, theorem=THEOREM)
+	disc = [('poisson_loss(mean=%r)' % m, lambda x, m=m: tuple(lf.poisson_loss(x, m)) + tuple(lf.poisson_second_loss(x, m)), stats.poisson(m)) for m in (1, 1.0, 0.5, 2)]
+	disc += [('geometric_loss(p=%r)' % pp, lambda x, pp=pp: tuple(lf.geometric_loss(x, pp)) + tuple(lf.geometric_second_loss(x, pp)), stats.geom(pp)) for pp in (0.5, 0.25, 0.9)]
+	disc += [('negative_binomial_loss(r=%r, p=%r)' % (r, pp), lambda x, r=r, pp=pp: tuple(lf.negative_binomial_loss(x, r, pp)) + tuple(lf.negative_binomial_second_loss(x, r, pp)), stats.nbinom(r, pp))
+			 for r, pp in ((1, 0.3), (1, 0.5), (2, 0.5))]
+	for nm, fn, dist in disc:
+		top = int(dist.ppf(1 - 1e-15)) + 5 if dist.ppf(1 - 1e-15) < 1e6 else 2000
+		lo_ = int(dist.support()[0])
+		pm = [(y, float(dist.pmf(y))) for y in range(lo_, top + 1)]
+		for x in (0, 1, 2, 5):
+			case = {'family': 'special-values', 'call': nm, 'x': x}
+			rep.case('discrete(closed forms)', case); rep.count('family:special-values'); rep.tol_cmp += 1
+			try:
+				with warnings.catch_warnings():
+					warnings.simplefilter('ignore')
+					got = [float(t) for t in fn(x)]
+				want = [sum(q * max(y - x, 0) for y, q in pm), sum(q * max(x - y, 0) for y, q in pm),
+						0.5 * sum(q * max(y - x, 0) * max(y - x - 1, 0) for y, q in pm), 0.5 * sum(q * max(x - y, 0) * max(x - y + 1, 0) for y, q in pm)]
+				if not all(close(a_, b_, 1e-7) for a_, b_ in zip(got, want)):
+					rep.diff('discrete(closed forms)', '%s at x=%r: %r, the definitions by summation give %r' % (nm, x, got, want), case, py=got, model=want, oracle=True, theorem=THEOREM)
+			except Exception as e:
+				rep.diff('discrete(closed forms)', '%s at x=%r raised %s' % (nm, x, err_enum(e)), case, oracle=True, theorem=THEOREM)
 
 
 def call_histories(rep):
